@@ -187,11 +187,16 @@ class Check:
 
     def classify(self, case):
         """Return the id of the listed known finding whose decidable class contains `case`, else None."""
+        import importlib
         from checks import known as K
+        try:
+            own = importlib.import_module("checks." + self.pid.lower())
+        except Exception:
+            own = None
         for f in self.findings:
             if f.get("status", "open") != "open":
                 continue
-            pred = getattr(K, f["class"]["predicate"], None)
+            pred = getattr(own, f["class"]["predicate"], None) or getattr(K, f["class"]["predicate"], None)
             if pred is not None and pred(case, f["class"].get("params", {})):
                 return f["id"]
         return None
